@@ -24,6 +24,8 @@ Inductive action2 :=
 | AcceptRet (i : nat)    (* (1) Accept() returns connection i *)
 | AddWg                  (* (2)+(3) wg.Add(1); go startSession *)
 | ServeExit              (* Accept() fails because the listener is closed: serve returns; deferred wg.Done() *)
+| ServeFail              (* Accept() fails for good for another reason (e.g. EMFILE): notify <- err; close(notify);
+                            serve returns; deferred wg.Done(). The listener stays open, Start stays in <-ctx.Done() *)
 | Other (a : action).    (* any step of Model/Lifecycle.v except its atomic [Accept] *)
 
 Definition is_accept (a : action) : bool := match a with Accept _ => true | _ => false end.
@@ -48,6 +50,11 @@ Definition step2 (y : sys2) (a : action2) : option sys2 :=
   | ServeExit =>
       match pend y with
       | None => if serving y && negb (lopen (sv (base y))) then Some (mkSys2 (base y) false None) else None
+      | Some _ => None
+      end
+  | ServeFail =>
+      match pend y with
+      | None => if serving y then Some (mkSys2 (base y) false None) else None
       | Some _ => None
       end
   | Other a =>
